@@ -313,7 +313,12 @@ def check_property(prop, tier='quick', seed=0, write_lock=False, only=None):
     for m in xmismatch[:10]:
         print("  cross-check mismatch:", m)
     if write_lock:
-        lock[prop] = sorted(set(new_lock))
+        if only:
+            ran = {u.uid for u in units}
+            keep = [o for o in lock.get(prop, []) if o.split('::')[0] not in ran]
+            lock[prop] = sorted(set(keep) | set(new_lock))
+        else:
+            lock[prop] = sorted(set(new_lock))
         json.dump(lock, open(LOCK, 'w'), indent=0, sort_keys=True)
         print(f"lock file updated: {len(new_lock)} obligations for {prop}")
     if violations:
